@@ -131,7 +131,11 @@ void ep8_norm_sim(ep8_t *r, const ep8_t *t, int n) {
 			fp8_copy(r[i]->y, t[i]->y);
 			if (!ep8_is_infty(t[i])) {
 				fp8_copy(r[i]->z, a[i]);
+			} else {
+				fp8_copy(r[i]->z, t[i]->z);
 			}
+			/* The result may be a separate array, take the system from the input. */
+			r[i]->coord = t[i]->coord;
 		}
 #if EP_ADD == PROJC || EP_ADD == JACOB || !defined(STRIP)
 		for (i = 0; i < n; i++) {
